@@ -429,14 +429,16 @@ def run(run, tier, replay=None):
         return [d, gdocs.permute(d, rng, "reversed")] + [gdocs.permute(d, rng) for _ in range(n_perm - 2)] + [gdocs.permute(d, rng, "media")]
     for name, d in gdocs.corpus():
         doc_list.append((name, variants(d), ["corpus"]))
-    for name, d in gdocs.corpus_order() + gdocs.corpus_retry():
+    tw = gdocs.case_twin_document()
+    doc_list.append(("case-twins-distinct-modules", variants(tw), ["corpus", "case-twins"]))
+    for name, d in gdocs.corpus_order() + gdocs.corpus_retry() + gdocs.corpus_retry2():
         doc_list.append((name, all_orders(d) + [gdocs.permute(d, rng, "media")], ["corpus", "all-permutations"]))
     # every property kind as an optional property / parameter next to another optional one (hash-seed part; also with literal_enums)
     kd = gdocs.kinds_optional_document()
     doc_list.append(("kinds-optional", [kd, gdocs.permute(kd, rng, "reversed"), gdocs.permute(kd, rng, "media")], ["corpus", "kinds"]))
     doc_list.append(("kinds-optional-literal-enums", [kd, gdocs.permute(kd, rng, "reversed"), gdocs.permute(kd, rng, "media")], ["corpus", "kinds", "literal-enums"]))
     for i in range(n_random):
-        d, feats = gdocs.gen_document_c12(rng, pressure=(i % 6 == 5))
+        d, feats = gdocs.gen_document_c12b(rng, pressure=(i % 6 == 5))
         doc_list.append((f"rand{i}", variants(d), feats))
 
     # ---- generate everything (fresh interpreter per (document, seed))
